@@ -218,7 +218,9 @@ fn toks_for(c: &Cfg) -> Vec<Tok> {
     }
     t.push(Tok::OtherX);
     t.push(Tok::OtherY);
-    if matches!(c.rel, Rel::ORequiresZ) {
+    // (the exclusive and conflict relations also get a bystander `--z`: some checks only look
+    // closer once two arguments were supplied)
+    if matches!(c.rel, Rel::ORequiresZ | Rel::OExclusive | Rel::OtherExclusive | Rel::OConflictsOther | Rel::OtherConflictsO | Rel::ZRequiredIfOEqualsDefaultIgnoringCase) {
         t.push(Tok::Z);
     }
     if c.rel == Rel::GlobalSub {
@@ -437,7 +439,8 @@ fn judge(c: &Cfg, spec: &CmdSpec, cmd: &clap::Command, seq: &[Tok], h: &mut Hist
             let only_default = !o_on_cli && !env_set;
             match c.rel {
                 Rel::OConflictsOther | Rel::OtherConflictsO | Rel::OExclusive | Rel::OtherExclusive
-                    if only_default && e.kind == "ArgumentConflict" && seq.iter().filter(|t| matches!(t, Tok::OtherX | Tok::OtherY)).count() <= 1 =>
+                    // (`other` exclusive and given next to `--z` is a genuine conflict)
+                    if only_default && e.kind == "ArgumentConflict" && seq.iter().filter(|t| matches!(t, Tok::OtherX | Tok::OtherY)).count() <= 1 && !(c.rel == Rel::OtherExclusive && other_on_cli && z_on_cli) =>
                 {
                     bad.push(("a default value triggered a conflict".into(), format!("{} (o default-only: {})", e.rendered.lines().next().unwrap_or(""), has_default_origin)));
                 }
